@@ -58,6 +58,13 @@ func zz20Store(t *zzT, n, ntx int) (*DataAccess, []*Block) {
 func zzH_C20_bulk_headers_by_ids(t *zzT) {
 	n := t.Param("N", 2)
 	d, blocks := zz20Store(t, n, 0)
+	// the newest block may sit in the block cache while the older ones are only in the database (the usual
+	// state of a node): lookups then mix cached and stored entries
+	if t.Bool("newest.cached") {
+		if err := d.Cache(blocks[n-1]); err != nil {
+			t.Fail("setup: cache")
+		}
+	}
 	ids := [][]byte{}
 	for _, b := range blocks {
 		ids = append(ids, b.Header.ID)
@@ -89,7 +96,12 @@ func zzH_C20_bulk_headers_by_ids(t *zzT) {
 //zz:thorough N=3
 func zzH_C20_bulk_headers_by_heights(t *zzT) {
 	n := t.Param("N", 2)
-	d, _ := zz20Store(t, n, 0)
+	d, hblocks := zz20Store(t, n, 0)
+	if t.Bool("newest.cached") {
+		if err := d.Cache(hblocks[n-1]); err != nil {
+			t.Fail("setup: cache")
+		}
+	}
 	heights := []uint32{}
 	for i := 0; i < n; i++ {
 		heights = append(heights, uint32(i+1))
